@@ -120,6 +120,30 @@ fn c18_option_set() {
     core::mem::forget((proof, res, set));
 }
 
+
+/// stand-in for the proven estimate (f64 code CBMC cannot decide): a constant that differs from every conjectured level the
+/// harness below can reach, so that WHICH estimate the policy consulted is observable
+fn proven_is_11(_o: &ProofOptions, _b: u32, _t: usize, _c: u32) -> u32 { 11 }
+// @ob id=C18 tier=quick req=1 to=900 fs=1 funcs="AcceptableOptions::validate (MinProvenSecurity, MinConjecturedSecurity),Proof::security_level" bounds="64-bit field; the proven estimate replaced by the constant 11 (stub); conjectured level >= 20 assumed" sym="all option parameters, the caller's minimum" desc="MinProvenSecurity(min) refuses exactly when the PROVEN estimate is below min (not the conjectured one), MinConjecturedSecurity(min) exactly when the conjectured one is"
+#[kani::proof]
+#[kani::unwind(20)]
+#[kani::stub(alloc::fmt::format, nofmt)]
+#[kani::stub(winter_air::proof::get_proven_security, proven_is_11)]
+fn c18_policy_consults_matching_estimate() {
+    let p = any_params();
+    let proof = proof_for::<f64::BaseElement>(&p);
+    let conj = proof.security_level::<CrHash<128>>(true);
+    kani::assume(conj >= 20);
+    assert!(proof.security_level::<CrHash<128>>(false) == 11);
+    let min: u32 = kani::any();
+    let rp = AcceptableOptions::MinProvenSecurity(min).validate::<CrHash<128>>(&proof);
+    assert!(rp.is_err() == (11 < min));
+    let rc = AcceptableOptions::MinConjecturedSecurity(min).validate::<CrHash<128>>(&proof);
+    assert!(rc.is_err() == (conj < min));
+    kani::cover!(min > 11 && min <= conj);
+    core::mem::forget((proof, rp, rc));
+}
+
 // @ob id=C18 tier=quick req=1 to=600 expect=fail desc="vacuity twin for the security-level family"
 #[kani::proof]
 #[kani::unwind(20)]
